@@ -47,28 +47,39 @@ func (w *World) checkC42() {
 			mu.Unlock()
 		}
 	}
-	virtual := map[string]bool{}
-	physical := map[protocol.Stream_Type]bool{}
-	tunnel := map[protocol.Stream_Type]bool{}
+	// the handler currently registered (its name) per slot
+	virtual := map[string]string{}
+	physical := map[protocol.Stream_Type]string{}
+	tunnel := map[protocol.Stream_Type]string{}
+	gen := 1
+	regPhysical := func(k protocol.Stream_Type) {
+		physical[k] = fmt.Sprintf("physical#%d/%s", gen, k)
+		router.HandleChord(k, nil, mk(physical[k]))
+	}
+	regTunnel := func(k protocol.Stream_Type) {
+		tunnel[k] = fmt.Sprintf("tunnel#%d/%s", gen, k)
+		router.HandleTunnel(k, mk(tunnel[k]))
+	}
+	regVirtual := func(k protocol.Stream_Type, t uint64) {
+		key := fmt.Sprintf("%s/%d", k, t)
+		virtual[key] = fmt.Sprintf("virtual#%d/%s/%d", gen, k, t)
+		router.HandleChord(k, &protocol.Node{Id: t}, mk(virtual[key]))
+	}
 	for _, k := range kinds {
 		physicalLast := r.Chance(0.5) // the node-wide handler is registered before or after the virtual ones
 		if !physicalLast && r.Chance(0.5) {
-			physical[k] = true
-			router.HandleChord(k, nil, mk(fmt.Sprintf("physical/%s", k)))
+			regPhysical(k)
 		}
 		if r.Chance(0.5) {
-			tunnel[k] = true
-			router.HandleTunnel(k, mk(fmt.Sprintf("tunnel/%s", k)))
+			regTunnel(k)
 		}
 		for _, t := range targets {
 			if r.Chance(0.4) {
-				virtual[fmt.Sprintf("%s/%d", k, t)] = true
-				router.HandleChord(k, &protocol.Node{Id: t}, mk(fmt.Sprintf("virtual/%s/%d", k, t)))
+				regVirtual(k, t)
 			}
 		}
 		if physicalLast && r.Chance(0.5) {
-			physical[k] = true
-			router.HandleChord(k, nil, mk(fmt.Sprintf("physical/%s", k)))
+			regPhysical(k)
 		}
 	}
 	ctx, cancel := context.WithCancel(w.ctx)
@@ -80,60 +91,83 @@ func (w *World) checkC42() {
 		conn *closeConn
 		desc string
 	}
-	var all []sent
-	n := 20 + r.Intn(30)
-	var wg sync.WaitGroup
-	for i := 0; i < n; i++ {
-		k := kinds[r.Intn(len(kinds))]
-		tgt := append(append([]uint64{}, targets...), 40)[r.Intn(len(targets)+1)]
-		viaTunnel := r.Chance(0.4)
-		c1, c2 := net.Pipe()
-		_ = c1
-		cc := &closeConn{Conn: c2}
-		d := &transport.StreamDelegate{Conn: cc, Identity: &protocol.Node{Id: tgt}, Kind: k}
-		want := "closed"
-		if viaTunnel {
-			if tunnel[k] {
-				want = fmt.Sprintf("tunnel/%s", k)
-			}
-		} else if virtual[fmt.Sprintf("%s/%d", k, tgt)] {
-			want = fmt.Sprintf("virtual/%s/%d", k, tgt)
-		} else if physical[k] {
-			want = fmt.Sprintf("physical/%s", k)
-		}
-		all = append(all, sent{d: d, want: want, conn: cc, desc: fmt.Sprintf("kind=%s target=%d via-tunnel=%v", k, tgt, viaTunnel)})
-		wg.Add(1)
-		simrt.GoGroup(fmt.Sprintf("h:send%d", i), "", func() {
-			defer wg.Done()
-			simrt.Sleep(time.Duration(r.Intn(50))*time.Millisecond, "h:send-delay")
+	round := func() {
+		var all []sent
+		n := 20 + r.Intn(30)
+		var wg sync.WaitGroup
+		for i := 0; i < n; i++ {
+			k := kinds[r.Intn(len(kinds))]
+			tgt := append(append([]uint64{}, targets...), 40)[r.Intn(len(targets)+1)]
+			viaTunnel := r.Chance(0.4)
+			c1, c2 := net.Pipe()
+			_ = c1
+			cc := &closeConn{Conn: c2}
+			d := &transport.StreamDelegate{Conn: cc, Identity: &protocol.Node{Id: tgt}, Kind: k}
+			want := "closed"
 			if viaTunnel {
-				snet.Deliver(tunT, d)
-			} else {
-				snet.Deliver(chordT, d)
+				if tunnel[k] != "" {
+					want = tunnel[k]
+				}
+			} else if v := virtual[fmt.Sprintf("%s/%d", k, tgt)]; v != "" {
+				want = v
+			} else if physical[k] != "" {
+				want = physical[k]
 			}
-		})
-	}
-	wg.Wait()
-	simrt.Sleep(5*time.Second, "h:drain")
-	for _, x := range all {
-		x.conn.mu.Lock()
-		closed := x.conn.closed
-		x.conn.mu.Unlock()
-		mu.Lock()
-		h, handled := got[x.d]
-		mu.Unlock()
-		switch {
-		case x.want == "closed":
-			if handled {
-				w.res.Violate("C42", "unmatched-handled", "stream %s has no matching handler but was given to %s", x.desc, h)
-			} else if !closed {
-				w.res.Violate("C42", "unmatched-not-closed", "stream %s has no matching handler and was not closed", x.desc)
-			}
-		case !handled:
-			w.res.Violate("C42", "not-dispatched", "stream %s was not handled (expected %s, closed=%v)", x.desc, x.want, closed)
-		case h != x.want:
-			w.res.Violate("C42", "wrong-handler", "stream %s was handled by %s, expected %s", x.desc, h, x.want)
+			all = append(all, sent{d: d, want: want, conn: cc, desc: fmt.Sprintf("kind=%s target=%d via-tunnel=%v", k, tgt, viaTunnel)})
+			wg.Add(1)
+			simrt.GoGroup(fmt.Sprintf("h:send%d.%d", gen, i), "", func() {
+				defer wg.Done()
+				simrt.Sleep(time.Duration(r.Intn(50))*time.Millisecond, "h:send-delay")
+				if viaTunnel {
+					snet.Deliver(tunT, d)
+				} else {
+					snet.Deliver(chordT, d)
+				}
+			})
 		}
+		wg.Wait()
+		simrt.Sleep(5*time.Second, "h:drain")
+		for _, x := range all {
+			x.conn.mu.Lock()
+			closed := x.conn.closed
+			x.conn.mu.Unlock()
+			mu.Lock()
+			h, handled := got[x.d]
+			mu.Unlock()
+			switch {
+			case x.want == "closed":
+				if handled {
+					w.res.Violate("C42", "unmatched-handled", "stream %s has no matching handler but was given to %s", x.desc, h)
+				} else if !closed {
+					w.res.Violate("C42", "unmatched-not-closed", "stream %s has no matching handler and was not closed", x.desc)
+				}
+			case !handled:
+				w.res.Violate("C42", "not-dispatched", "stream %s was not handled (expected %s, closed=%v)", x.desc, x.want, closed)
+			case h != x.want:
+				w.res.Violate("C42", "wrong-handler", "stream %s was handled by %s, expected %s", x.desc, h, x.want)
+			}
+		}
+	}
+	round()
+	// handlers are registered again while the router is serving (a component restarts, a virtual node is added):
+	// from then on the most specific handler registered NOW decides, also for targets that were served before
+	for extra := 0; extra < r.Intn(3); extra++ {
+		gen++
+		for _, k := range kinds {
+			if r.Chance(0.5) {
+				regPhysical(k)
+			}
+			if r.Chance(0.3) {
+				regTunnel(k)
+			}
+			for _, t := range targets {
+				if r.Chance(0.2) {
+					regVirtual(k, t)
+				}
+			}
+		}
+		simrt.Probe("c42-reregistered")
+		round()
 	}
 	simrt.Probe("c42-checked")
 }
